@@ -127,7 +127,15 @@ class CallMixin:
                 self.merge_depth = saved
             self.module_const_cache[key] = v
         v = self.module_const_cache[key]
-        return v.clone({})
+        r = v.clone({})
+        if isinstance(r, (VRec, VList, VDict)) and not getattr(mod, "is_spec", False):
+            # a module-level MUTABLE container: the object itself is shared process-wide state; the mark lets a contract
+            # that declares `fresh_result=True` reject handing it out un-copied (copy()/dict()/list() build unmarked objects)
+            try:
+                r.module_global = f"{mod.relpath}::{name}"
+            except Exception:  # noqa
+                pass
+        return r
 
     def resolve_import(self, mod: ModuleInfo, m, attr, level):
         if level and getattr(mod, "relpath", "").endswith(".py") and not getattr(mod, "is_spec", False):
@@ -1533,7 +1541,13 @@ class CallMixin:
         if isinstance(recv, VStr):
             return self.str_method(recv, name, args, kwargs, lineno)
         if isinstance(recv, VList):
-            return self.list_method(recv, name, args, kwargs, lineno)
+            r = self.list_method(recv, name, args, kwargs, lineno)
+            origin = getattr(recv, "map_origin", None)
+            if origin is not None and name in ("append", "extend", "clear", "insert", "pop"):
+                # the list is the one stored under a key of a VMap (d[k].append(x)): the mutation reaches the dict
+                m, k = origin
+                m.vals = z3.Store(m.vals, k, m.ty.val.pack(recv))
+            return r
         if isinstance(recv, VTuple):
             if name == "index" or name == "count":
                 raise Unsupported(f"tuple.{name}")
